@@ -97,7 +97,7 @@ PROPS = {
     ),
     'C05': dict(
         module='Hpfeeds.Props.C05', file='Hpfeeds/Props/C05.lean',
-        engines=[('codec', dict(sections=['roundtrip', 'readers']))],
+        engines=[('codec', dict(sections=['roundtrip', 'roundtrip-stream', 'readers']))],
         trusted=['modelled not verified: struct.pack/unpack, Python UTF-8 codec (compared with core Lean validateUTF8 each run), hashlib.sha1'],
     ),
     'C06': dict(
